@@ -174,3 +174,46 @@ Proof.
     apply IH. apply sequence_numbers_increase. exact HS. }
   apply G. exact I.
 Qed.
+
+(* ------------------------------------------------------------------ C07: chunked continuous = gapped
+   With compression or checksums (needs_chunking) the continuous flag is consulted in exactly two
+   places: the rejection of multi-block calls and the un-chunked rebasing of row 0, which is switched
+   off.  So every single-block call -- the only kind continuous mode accepts -- does exactly what it
+   does in gapped mode: same return code, same files, same cursor. *)
+
+Definition flip_cont (c : cfg) : cfg :=
+  mkCfg (c_start c) (c_n c) (c_d c) (c_sc c) (c_fc c) (negb (c_cont c)) (c_chunk c).
+
+Lemma crdi_cont_irrelevant start gi cont cont' sw left cap bl vlen next fe :
+  create_rf_data_index start gi true cont sw left cap bl vlen next fe =
+  create_rf_data_index start gi true cont' sw left cap bl vlen next fe.
+Proof.
+  unfold create_rf_data_index. destruct bl as [|[g0 d0] tl]; [reflexivity|].
+  cbn [negb]. rewrite !andb_false_r. reflexivity.
+Qed.
+
+Lemma wstf_cont_irrelevant c st sw bl vec : c_chunk c = true ->
+  write_samples_to_file (flip_cont c) st sw bl vec = write_samples_to_file c st sw bl vec.
+Proof.
+  intros Hch. unfold write_samples_to_file, flip_cont. cbn [c_start c_n c_d c_sc c_fc c_cont c_chunk].
+  rewrite Hch. destruct bl as [|[g0 d0] tl]; [reflexivity|].
+  destruct (negb (d0 =? 0)); [reflexivity|].
+  rewrite (crdi_cont_irrelevant _ _ (negb (c_cont c)) (c_cont c)). reflexivity.
+Qed.
+
+Lemma write_loop_cont_irrelevant c bl vec : c_chunk c = true -> forall fuel st sw,
+  write_loop fuel (flip_cont c) st sw bl vec = write_loop fuel c st sw bl vec.
+Proof.
+  intros Hch. induction fuel as [|fuel IH]; intros st sw; cbn [write_loop]; [reflexivity|].
+  destruct (sw <? _); [|reflexivity]. rewrite (wstf_cont_irrelevant c st sw bl vec Hch).
+  destruct (write_samples_to_file c st sw bl vec) as [[k|] st1]; [|reflexivity].
+  destruct (k =? 0); [reflexivity|apply IH].
+Qed.
+
+Theorem chunked_continuous_equals_gapped c st g vec : c_chunk c = true ->
+  write_one (flip_cont c) st g vec = write_one c st g vec.
+Proof.
+  intros Hch. unfold write_one, write_blocks. destruct (w_failed st); [reflexivity|].
+  destruct (g <? w_gi st); [reflexivity|]. rewrite !andb_false_r.
+  apply write_loop_cont_irrelevant. exact Hch.
+Qed.
